@@ -349,7 +349,7 @@ TORCH_DISTS = {
     "Beta": ("torch.distributions.Beta", {"concentration1": (1, g_pos()), "concentration0": (1, g_pos())}, g_unit(), 0),
     "Dirichlet": ("torch.distributions.Dirichlet", {"concentration": ("N", g_pos())}, g_simplex(), 1),
     "tt.LogNormal": ("torchtree.distributions.log_normal.LogNormal", {"mean": (1, g_pos()), "scale": (1, g_pos())}, g_pos(), 0),
-    "tt.Normal": ("torchtree.distributions.normal.Normal", {"mean": (1, g_real()), "scale": (1, g_pos())}, g_real(), 0),
+    "tt.Normal": ("torchtree.distributions.normal.Normal", {"loc": (1, g_real()), "precision": (1, g_pos())}, g_real(), 0),
     "tt.OneOnX": ("torchtree.distributions.one_on_x.OneOnX", {}, g_pos(), 0),
 }
 
@@ -508,6 +508,20 @@ def joint_spec(name, comps):
     return sp
 
 
+def joint1_spec(sub):
+    """JointDistributionModel([X]) for a callable model / transformed parameter X"""
+    sp = Spec(f"JointDistributionModel[{sub.key}]", [(f"0.{p}", d) for p, d in sub.params.items()], None, "joint1",
+              comps=[sub.key])
+    sp.subs = [sub]
+
+    def make(v):
+        impl.load()
+        from torchtree.distributions.joint_distribution import JointDistributionModel
+        return JointDistributionModel("joint", [sub.make({p: v[f"0.{p}"] for p in sub.params})])
+    sp.make = make
+    return sp
+
+
 # ----------------------------------------------------------------------------- catalogue
 
 def catalogue(tier):
@@ -589,6 +603,20 @@ def catalogue(tier):
     S.append(joint_spec("mvn+gamma", [("mvn", "covariance_matrix", 3), ("dist", "Gamma", 1, "one")]))
     S.append(joint_spec("single-normal", [("dist", "Normal", 3, "one")]))
     S.append(joint_spec("oneonx+normal", [("dist", "tt.OneOnX", 1, "one"), ("dist", "Normal", 3, "one")]))
+    S.append(joint_spec("gmrf+gamma", [("gmrf", "plain", 3, 4), ("dist", "Gamma", 1, "one")]))
+    # every callable model / transformed parameter as the single component of a joint distribution
+    seen = set()
+    for sp in list(S):
+        if sp.group in ("joint", "treemodel") or sp.key.startswith("TransformedParameter/Linear") or \
+                sp.key.startswith("TransformedParameter/RescaledRate"):
+            continue
+        cls = sp.key.split("/")[0]
+        tag = sp.key if (thorough or cls in ("Distribution",)) else cls + "/" + str(len(sp.params))
+        if tag in seen:
+            continue
+        seen.add(tag)
+        S.append(joint1_spec(sp))
+    S.append(joint1_spec(heights_spec("ratio", 3)))
     return S
 
 
@@ -659,6 +687,9 @@ def oracle(spec, batched, ss, vals):
     res = dict(outcome="ok", shapes=[list(o.shape) for o in outs], ref_shapes=[list(o.shape) for o in refs[0]])
     for k, o in enumerate(outs):
         rn = refs[0][k].numel()
+        if o.numel() == rn and all(all(close(x, y) for x, y in zip(_tolist(o), _tolist(r[k]))) for r in refs):
+            continue        # the value does not depend on the batched parameters and is returned unbatched: it is
+            #                 the (broadcast) value of every sample
         if o.numel() != n * rn:
             res.update(outcome="shape", observable=k,
                        what=f"result shape {list(o.shape)} for sample shape {list(ss)}; an unbatched call returns "
@@ -711,3 +742,147 @@ def _debug(argv):
 if __name__ == "__main__":
     import sys
     _debug(sys.argv)
+
+
+# ----------------------------------------------------------------------------- tensor-op correspondence (M_tensor vs torch)
+
+from harness import common as C  # noqa: E402
+
+HEADER = ("From Coq Require Import ZArith List. Import ListNotations.\n"
+          "From TT Require Import M_tensor.\nOpen Scope Z_scope.\n")
+
+
+def _rshape(rng, maxrank=3, maxdim=3, zero=False):
+    r = rng.randint(0, maxrank)
+    return [rng.choice(([0] if zero else []) + list(range(1, maxdim + 1))) for _ in range(r)]
+
+
+def _numel(s):
+    n = 1
+    for k in s:
+        n *= k
+    return n
+
+
+def gen_op_case(rng, i):
+    kinds = ["binop", "binop", "unsqueeze", "squeeze", "expand", "reshape", "sum", "sum", "mean", "cat", "cat"]
+    kind = kinds[i % len(kinds)]
+    s = _rshape(rng, zero=rng.random() < 0.05)
+    c = dict(op=kind, shape=s, data=[rng.randint(-9, 9) for _ in range(_numel(s))])
+    if kind == "binop":
+        mode = rng.random()
+        if mode < 0.6:       # compatible by construction: drop leading dims / set dims to 1 on each side
+            full = _rshape(rng, 4, 3)
+            a = [1 if rng.random() < 0.3 else k for k in full][rng.randint(0, len(full)):]
+            b = [1 if rng.random() < 0.3 else k for k in full][rng.randint(0, len(full)):]
+        else:
+            a, b = _rshape(rng), _rshape(rng)
+        c.update(shape=a, data=[rng.randint(-9, 9) for _ in range(_numel(a))], shape2=b,
+                 data2=[rng.randint(-9, 9) for _ in range(_numel(b))])
+    elif kind in ("unsqueeze", "squeeze", "sum", "mean"):
+        c["dim"] = rng.randint(-len(s) - 2, len(s) + 1)
+        c["keepdim"] = rng.random() < 0.5
+    elif kind == "expand":
+        extra = rng.randint(0, 2)
+        sizes = [rng.choice([-1, 1, 2, 3]) for _ in range(extra)]
+        for k in s:
+            sizes.append(rng.choice([-1, k, k, rng.randint(0, 3)]))
+        if rng.random() < 0.1 and sizes:
+            sizes = sizes[1:]
+        c["sizes"] = sizes
+    elif kind == "reshape":
+        n = _numel(s)
+        sizes = []
+        rest = n
+        for _ in range(rng.randint(0, 3)):
+            divs = [d for d in range(1, 7) if rest and rest % d == 0] or [1]
+            d = rng.choice(divs)
+            sizes.append(d)
+            rest = rest // d if rest else 0
+        sizes.append(rest if rng.random() < 0.6 else rng.choice([-1, -1, 2, 0]))
+        rng.shuffle(sizes)
+        if rng.random() < 0.1:
+            sizes.append(-1)
+        c["sizes"] = sizes
+    elif kind == "cat":
+        k = rng.randint(1, 3)
+        base = _rshape(rng, 3, 3) or [2]
+        dim = rng.randint(-len(base) - 1, len(base))
+        d0 = dim % len(base) if -len(base) <= dim < len(base) else 0
+        parts = []
+        for _ in range(k):
+            sh = list(base)
+            sh[d0] = rng.randint(1, 3)
+            if rng.random() < 0.12:
+                sh[rng.randrange(len(sh))] += 1
+            if rng.random() < 0.05:
+                sh = sh[1:]
+            parts.append(dict(shape=sh, data=[rng.randint(-9, 9) for _ in range(_numel(sh))]))
+        c.update(parts=parts, dim=dim)
+    return c
+
+
+def torch_op(c):
+    """-> ('err',) or ('ok', shape, flat int data)"""
+    torch = impl.load()
+
+    def T(shape, data):
+        return torch.tensor(data, dtype=torch.float64).reshape(shape)
+    try:
+        op = c["op"]
+        if op == "binop":
+            r = T(c["shape"], c["data"]) + T(c["shape2"], c["data2"])
+        elif op == "unsqueeze":
+            r = T(c["shape"], c["data"]).unsqueeze(c["dim"])
+        elif op == "squeeze":
+            r = T(c["shape"], c["data"]).squeeze(c["dim"])
+        elif op == "expand":
+            r = T(c["shape"], c["data"]).expand(*c["sizes"]) if c["sizes"] else T(c["shape"], c["data"]).expand(())
+        elif op == "reshape":
+            r = T(c["shape"], c["data"]).reshape(c["sizes"])
+        elif op == "sum":
+            r = T(c["shape"], c["data"]).sum(c["dim"], keepdim=c["keepdim"])
+        elif op == "mean":
+            t = T(c["shape"], c["data"])
+            r = t.mean(c["dim"], keepdim=c["keepdim"])
+            n = t.shape[c["dim"]] if t.dim() else 1
+            r = r * n
+        elif op == "cat":
+            r = torch.cat([T(p["shape"], p["data"]) for p in c["parts"]], c["dim"])
+        return ("ok", list(r.shape), [int(round(float(x))) for x in r.reshape(-1)])
+    except (RuntimeError, IndexError, ValueError, TypeError):
+        return ("err",)
+
+
+def _ct(shape, data):
+    return f"(mkT {C.coq_list(shape, C.natlit)} {C.coq_list(data, C.zlit)})"
+
+
+def coq_op(c):
+    op = c["op"]
+    t = _ct(c["shape"], c["data"])
+    b = lambda x: "true" if x else "false"
+    if op == "binop":
+        return f"show_t (zbinop Z.add {t} {_ct(c['shape2'], c['data2'])})"
+    if op == "unsqueeze":
+        return f"show_t (unsqueeze {C.zlit(c['dim'])} {t})"
+    if op == "squeeze":
+        return f"show_t (squeeze {C.zlit(c['dim'])} {t})"
+    if op == "expand":
+        return f"show_t (expand {C.coq_list(c['sizes'], C.zlit)} {t})"
+    if op == "reshape":
+        return f"show_t (reshape {C.coq_list(c['sizes'], C.zlit)} {t})"
+    if op == "sum":
+        return f"show_t (zsum_dim {C.zlit(c['dim'])} {b(c['keepdim'])} {t})"
+    if op == "mean":
+        return f"show_t (zmean_dim {C.zlit(c['dim'])} {b(c['keepdim'])} {t})"
+    if op == "cat":
+        return f"show_t (zcat {C.zlit(c['dim'])} {C.coq_list(c['parts'], lambda p: _ct(p['shape'], p['data']))})"
+    raise ValueError(op)
+
+
+def decode_t(flat):
+    if flat[0] == 0:
+        return ("err",)
+    r = flat[1]
+    return ("ok", flat[2:2 + r], flat[2 + r:])
